@@ -151,10 +151,11 @@ def _zero_targets(case, Qs, Ts, iq):
     strand (single-strand scores are read from a call that lists both strands as explicit targets)"""
     key = (json.dumps([case['Q'], case['T'], _params(case)], sort_keys=True), iq, 'zero')
     if key not in _ALONE:
-        both = Ts + [numpy.ascontiguousarray(T[::-1, ::-1]) for T in Ts]
+        rc = case.get('rc', True)
+        both = Ts + [numpy.ascontiguousarray(T[::-1, ::-1]) for T in Ts] if rc else Ts   # same pooled columns as the case
         R = _run([Qs[iq]], both, dict(_params(case), reverse_complement=False), {'n_jobs': 1})[0]
         sc = R[1, 0]
-        z = (sc[:len(Ts)] == 0) | (sc[len(Ts):] == 0) if case.get('rc', True) else sc[:len(Ts)] == 0
+        z = (sc[:len(Ts)] == 0) | (sc[len(Ts):] == 0) if rc else sc == 0
         _ALONE[key] = z
     return _ALONE[key]
 
